@@ -15,3 +15,11 @@ Definition wrap_u32 (x : Z) : Z := x mod 4294967296.
 Definition wrap_s32 (x : Z) : Z := (x + 2147483648) mod 4294967296 - 2147483648.
 Definition wrap_u64 (x : Z) : Z := x mod 18446744073709551616.
 Definition wrap_s64 (x : Z) : Z := (x + 9223372036854775808) mod 18446744073709551616 - 9223372036854775808.
+
+(* Stage-3 translation (Gen/Base_<S>.v): calls that touch elements, buffers or the allocator are recorded, in order, with
+   their integer arguments; `if (_storage)` of StdVectorBase is rendered by [ptr_nonnull] - the pointer of a StdVectorBase is
+   non-null exactly when its capacity word is non-zero (an invariant of that class observed by the drivers: a vector with
+   null storage and a capacity, or the converse, is reported as corrupted). *)
+From Coq Require Import String List.
+Inductive eff := Eff (name : string) (args : list Z).
+Definition ptr_nonnull (s : words) : bool := negb (capa_ s =? 0).
